@@ -25,7 +25,8 @@ UNITS = [src('base', 'src', 'StateSampler.cpp'), src(S + 'RealVectorStateSpace.c
          src('base', 'spaces', 'constraint', 'src', 'ConstrainedStateSpace.cpp'),
          src('base', 'src', 'SpaceInformation.cpp'), facts.INST + '/headers.cpp'] + \
         [src('base', 'samplers', 'src', n + 'ValidStateSampler.cpp') for n in
-         ('Uniform', 'Gaussian', 'ObstacleBased', 'BridgeTest', 'MaximizeClearance', 'MinimumClearance')]
+         ('Uniform', 'Gaussian', 'ObstacleBased', 'BridgeTest', 'MaximizeClearance', 'MinimumClearance')] + \
+        [src('util', 'src', 'RandomNumbers.cpp')]
 
 B = 'ompl::base::'
 EPS = Fr(1, 1000)
@@ -583,6 +584,92 @@ def r08e(rep, F):
     rep.require_count('R08e', 'paths of SO3StateSpace::enforceBounds', n, 3)
 
 
+def r08f(rep, F):
+    rep.rule('R08f', 'RNG::quaternion yields a unit quaternion identically: the four stored components, in algebraic normal form over '
+                     'fresh atoms for the random draws, have squares that sum to 1 after sqrt(q)^2 -> q and cos^2 -> 1 - sin^2; every '
+                     'component is written exactly once.  (The SO(3) samplers store what this routine produces; C08 needs unit norm)')
+    from engine import sym
+    f = [x for x in F.by_name.get('ompl::RNG::quaternion', []) if x.body]
+    if not f:
+        raise AnalysisBroken('R08f: RNG::quaternion vanished')
+    f = f[0]
+    ctx = sym.Ctx(inline=sym.resolver(F, deny=()))
+    m = sym.Machine(F, ctx)
+    m.split = False
+    V = ('S', 'V')
+    st = {'env': {f.params[0]['did']: V}, 'heap': [], 'alias': {}, 'this': ('T',), 'facts': []}
+    try:
+        m.block(f, [f.body], st)
+    except sym.Unsupported as e:
+        raise AnalysisBroken('R08f: outside the fragment: %s' % e)
+    comps = {}
+    for k, v, q in st['heap']:
+        if isinstance(k, tuple) and k and k[0] == 'I' and k[1] == V and q is None:
+            comps.setdefault(repr(k[2]), []).append(v)
+    tot = sym.Poly()
+    for vs in comps.values():
+        tot = tot + vs[-1] * vs[-1]
+    nrm = sym.pythagoras(tot)
+    ok = len(comps) == 4 and sym._same(nrm, sym.Poly.const(1))
+    rep.add('R08f', f.name, 'unit-norm-identity', ok, f.loc, 'x^2 + y^2 + z^2 + w^2 normalises to 1' if ok else
+            ('%d components are written, not 4' % len(comps) if len(comps) != 4 else
+             'the squared norm normalises to %s, not 1: the sampled rotation is not a unit quaternion' % sym.show(nrm)[:160]))
+
+
+def r08g(rep, F):
+    rep.rule('R08g', 'ranges of the RNG primitives the samplers clamp with, interpreted over exact rationals (draw u in {0, 1/7, 1/2, 6/7, '
+                     '999/1000}; bounds (-2,3), (0,0), (1,5), (-4,-4), (0,1)): uniformReal(lo, hi) lies in [lo, hi) (equal to lo when lo = '
+                     'hi); uniformInt(lo, hi) is an integer in [lo, hi] and reaches both ends (u = 0 gives lo, u = 999/1000 gives hi); '
+                     'uniform01 is the draw itself')
+    from engine import obj
+    import math
+    RN = 'ompl::RNG::'
+
+    def run(name, u, *av):
+        fs = [g for g in F.by_name.get(RN + name, []) if g.body and len(g.params) == len(av)]
+        if not fs:
+            raise AnalysisBroken('R08g: RNG::%s vanished' % name)
+
+        def call(it, n, env):
+            c = n.get('callee') or ''
+            if '_distribution::operator()' in c:
+                return u
+            if c in ('floor', 'std::floor'):
+                return math.floor(it.ev(n['ch'][-1], env))
+            return NotImplemented
+        it = obj.ObjInterp(F, fs[0], this=obj.Ref(uniDist_=('dist',), generator_=('gen',), normalDist_=('dist',)), hooks={'call': call})
+        r, _ = it.run({'%s#%d' % (p_['name'], p_['did']): v for p_, v in zip(fs[0].params, av)})
+        return r
+    us = [Fr(0), Fr(1, 7), Fr(1, 2), Fr(6, 7), Fr(999, 1000)]
+    bad = None
+    n = 0
+    for lo, hi in ((Fr(-2), Fr(3)), (Fr(0), Fr(0)), (Fr(1), Fr(5)), (Fr(-4), Fr(-4)), (Fr(0), Fr(1))):
+        for u in us:
+            r = run('uniformReal', u, lo, hi)
+            n += 1
+            if not (lo <= r and (r < hi or (lo == hi and r == lo))) and bad is None:
+                bad = 'uniformReal(%s, %s) with draw %s gives %s' % (lo, hi, u, r)
+    rep.add('R08g', RN + 'uniformReal', 'within-half-open-range', bad is None, '', bad or 'in [lo, hi) on %d abstract points' % n)
+    bad = None
+    n = 0
+    for lo, hi in ((-2, 3), (0, 0), (1, 5), (-4, -4), (0, 1)):
+        seen = set()
+        for u in us:
+            r = run('uniformInt', u, lo, hi)
+            n += 1
+            seen.add(r)
+            if not (isinstance(r, int) and lo <= r <= hi) and bad is None:
+                bad = 'uniformInt(%d, %d) with draw %s gives %s' % (lo, hi, u, r)
+        if bad is None and not ({lo, hi} <= seen):
+            bad = 'uniformInt(%d, %d) never returns %s' % (lo, hi, sorted({lo, hi} - seen))
+    rep.add('R08g', RN + 'uniformInt', 'within-closed-range-both-ends-reached', bad is None, '', bad or 'integer in [lo, hi], both ends reached, on %d abstract points' % n)
+    bad = None
+    for u in us:
+        if run('uniform01', u) != u:
+            bad = 'uniform01 does not return the draw'
+    rep.add('R08g', RN + 'uniform01', 'is-the-draw', bad is None, '', bad or 'returns the draw')
+
+
 def run(rep):
     F = facts.load_units(UNITS)
     rep.units.update(UNITS)
@@ -592,3 +679,5 @@ def run(rep):
     r08c(rep, F)
     r08d(rep, F)
     r08e(rep, F)
+    r08f(rep, F)
+    r08g(rep, F)
